@@ -181,9 +181,14 @@ def call_numpy(it, name, mod, fn, args, kwargs, node, fr):
             sp = getattr(m, "space", None)
             mt = to_term(m)
             fs = Space(f"where[{tm.show(mt)[:50]}]", parent=sp, how="filter", key=mt.key())
-            p = Val(call("where", mt), space=fs, pos_of=sp)
-            p.mask = m
-            return Seq([p], "tuple")
+            rk_ = getattr(m, "rank", None) or 1
+            out_ = []
+            for ax_ in range(rk_):
+                p = Val(call("where", mt) if rk_ == 1 else call("where", mt, const(ax_)), space=fs, pos_of=sp)
+                p.mask = m
+                p.where_axis = ax_
+                out_.append(p)
+            return Seq(out_, "tuple")
     if fn in ("nonzero", "flatnonzero", "argwhere") and args:
         m = args[0]
         sp = getattr(m, "space", None)
